@@ -34,7 +34,7 @@ pub fn edit_list(ch: &mut Ch, sigs: &mut Vec<Sig>, b: &Built, log: &mut Vec<Stri
     }
     let i = ch.upto(sigs.len());
     let virt = b.analysis.virtuals.clone();
-    match ch.upto(13) {
+    match ch.upto(14) {
         0 => {
             let new = ["ZZ", "A", "Q", "n", "IO_out", "Q_out"][ch.upto(6)].to_string();
             log.push(format!("rename {} -> {new}", sigs[i].name));
@@ -151,6 +151,31 @@ pub fn edit_list(ch: &mut Ch, sigs: &mut Vec<Sig>, b: &Built, log: &mut Vec<Stri
                 }
             }
         }
+        12 => {
+            // an output that a `declare` reads and that is also the name of a variable somewhere
+            // in the program: make it an input (the declare, blind to variables, then reads
+            // something that is not output-capable)
+            let mut vreads: Vec<String> = vec![];
+            for (_, e) in b.prog.virtuals() {
+                e.visit(&mut |x| {
+                    if let Expr::Var(n) = x {
+                        vreads.push(n.clone())
+                    }
+                });
+            }
+            let mut bound: Vec<String> = vec![];
+            b.prog.visit_stmts(&mut |st, _| match st {
+                Stmt::Let(n, _) | Stmt::Loop(n, _, _) => bound.push(n.clone()),
+                Stmt::Repeat(..) => bound.push("n".into()),
+                _ => {}
+            });
+            if let Some(r) = vreads.iter().find(|r| bound.contains(r)) {
+                if let Some(sg) = sigs.iter_mut().find(|s| s.name == *r && s.is_output()) {
+                    log.push(format!("make {r}, read by a declare and also a variable name, an input"));
+                    sg.kind = Kind::In(InVal::Val(0));
+                }
+            }
+        }
         _ => {
             log.push(format!("rewidth {}", sigs[i].name));
             sigs[i].bits = 1 + ch.upto(64);
@@ -163,7 +188,7 @@ impl Property for C11 {
         "C11"
     }
     fn rule(&self) -> &'static str {
-        "profile `fit`: a generated program with device reads, C columns, virtual signals, bidirectional and shared columns, total expressions; its fitted signal list, then 0-2 edits of the list (rename, drop, duplicate also with the other direction, flip direction, add an unrelated signal, reorder, rename to a virtual's name, name<->name_out, make a read name an input, make a C column an output, add an input called <output>_out, take the input away from under a shared `<b>_out` column that holds C, change a width). Oracle: the four clauses of the statement evaluated on the model with an independent static scope analysis (one frame per loop/repeat, none for while, let visible after its right-hand side, counter invisible in the bound, declare blind to variables) vs Ok/Err of with_signals; if Ok, the test is iterated to the end with an honest driver and any panic or error item is a violation. Non-trivial: accepted with >= 1 of {read output, C column, virtual, bidirectional}, or rejected by an edit; distinct by source + list."
+        "profile `fit`: a generated program with device reads, C columns, virtual signals, bidirectional and shared columns, total expressions; its fitted signal list, then 0-2 edits of the list (rename, drop, duplicate also with the other direction, flip direction, add an unrelated signal, reorder, rename to a virtual's name, name<->name_out, make a read name an input, make a C column an output, add an input called <output>_out, take the input away from under a shared `<b>_out` column that holds C, make an output that a declare reads and that is also a variable's name an input, change a width). Oracle: the four clauses of the statement evaluated on the model with an independent static scope analysis (one frame per loop/repeat, none for while, let visible after its right-hand side, counter invisible in the bound, declare blind to variables) vs Ok/Err of with_signals; if Ok, the test is iterated to the end with an honest driver and any panic or error item is a violation. Non-trivial: accepted with >= 1 of {read output, C column, virtual, bidirectional}, or rejected by an edit; distinct by source + list."
     }
     fn cases(&self, tier: Tier) -> u64 {
         match tier {
